@@ -241,6 +241,21 @@ def rule_accessors(ctx):
                 problems.append("does not assign through self[%s] = ..." % key)
         elif not any(isinstance(s.ctx, ast.Load) for s in subs):
             problems.append("does not fetch the item through self[%s]" % key)
+        # the delegation must not be restricted by further tests on the key (other than the list of plain attributes)
+        if mname in ("__getattr__",):
+            for s_ in walk_shallow(fi.node):
+                if isinstance(s_, ast.If):
+                    for atom in (s_.test.values if isinstance(s_.test, ast.BoolOp) else [s_.test]):
+                        names = {n.id for n in ast.walk(atom) if isinstance(n, ast.Name)}
+                        if key in names:
+                            txt = ast.unparse(atom)
+                            ok_atom = (txt in ("%s in self" % key,) or
+                                       (isinstance(atom, ast.Compare) and isinstance(atom.ops[0], ast.NotIn) and isinstance(atom.comparators[0], ast.Name)) or
+                                       (isinstance(atom, ast.UnaryOp) and isinstance(atom.operand, ast.Compare) and isinstance(atom.operand.ops[0], ast.In)
+                                        and isinstance(atom.operand.comparators[0], ast.Name) and atom.operand.comparators[0].id != "self"))
+                            if not ok_atom:
+                                problems.append("attribute access is additionally restricted by `%s`: for such keys getattr() raises "
+                                                "although the key is in the section" % txt)
         # no private scan of its own
         own = _relations(fi, key, {e for (_, e, _, _) in _self_loops(fi)})
         if own:
@@ -316,6 +331,17 @@ def rule_compare(ctx):
             branches["plain"] += 1
     if not branches["folded"] or not branches["plain"]:
         problems.append("expected one case-folded and one exact equality branch, found %s" % branches)
+    for sub in walk_shallow(fi.node):
+        if isinstance(sub, (ast.Assign, ast.AugAssign, ast.AnnAssign)):
+            targets = sub.targets if isinstance(sub, ast.Assign) else [sub.target]
+            for t in targets:
+                if set(target_names(t)) & {a, b}:
+                    problems.append("the arguments are rewritten before the comparison (`%s`): e.g. str() coercion makes the "
+                                    "integer position 1 equal to the mnemonic '1', so positional access returns the wrong item"
+                                    % unparse(sub))
+        if isinstance(sub, ast.Call) and isinstance(sub.func, ast.Name) and sub.func.id in ("str", "repr", "format") and sub.args \
+                and isinstance(sub.args[0], ast.Name) and sub.args[0].id in (a, b):
+            problems.append("an argument is coerced with %s(): integer keys then match digit-string mnemonics" % sub.func.id)
     ctx.check(not problems, "SI.COMPARE", site, fi, fi.node,
               "mnemonic_compare is == on both arguments, case-folded on both sides exactly when mnemonic_transforms",
               "mnemonic_compare: " + "; ".join(problems))
@@ -532,6 +558,11 @@ def rule_suffix_algo(ctx):
     problems = []
     loops = _self_loops(fi)
     elems = {e for (_, e, _, _) in loops}
+    for sub in walk_shallow(fi.node):
+        if isinstance(sub, (ast.ListComp, ast.GeneratorExp)):
+            for g in sub.generators:
+                if "self" in {n.id for n in ast.walk(g.iter) if isinstance(n, ast.Name)}:
+                    elems |= set(target_names(g.target))
     # 1. the only use of the test mnemonic in a comparison is mnemonic_compare(item.useful_mnemonic, test_mnemonic)
     cmp_ok = 0
     for sub in walk_shallow(fi.node):
@@ -576,17 +607,26 @@ def rule_suffix_algo(ctx):
             problems.append((st, "suffix numbers must come from enumerate() over the matching positions"))
         else:
             ivar = lp.target.elts[0].id if isinstance(lp.target, ast.Tuple) and isinstance(lp.target.elts[0], ast.Name) else None
-            if len(lp.iter.args) != 1 or lp.iter.keywords:
-                problems.append((lp, "enumerate() with a start offset changes the numbering"))
+            start = 0
+            sarg = lp.iter.args[1] if len(lp.iter.args) > 1 else next((k.value for k in lp.iter.keywords if k.arg == "start"), None)
+            if sarg is not None:
+                start = sarg.value if isinstance(sarg, ast.Constant) and isinstance(sarg.value, int) else None
+            # the number used = ivar + c ; need start + c == 1
+            offs = None
+            if arg is not None:
+                for b in ast.walk(arg):
+                    if isinstance(b, ast.BinOp) and isinstance(b.op, ast.Add):
+                        l, r_ = b.left, b.right
+                        if isinstance(l, ast.Name) and l.id == ivar and isinstance(r_, ast.Constant) and isinstance(r_.value, int):
+                            offs = r_.value
+                        if isinstance(r_, ast.Name) and r_.id == ivar and isinstance(l, ast.Constant) and isinstance(l.value, int):
+                            offs = l.value
+                if offs is None and any(isinstance(n_, ast.Name) and n_.id == ivar for n_ in ast.walk(arg)):
+                    offs = 0
             consts = [c.value for c in ast.walk(arg) if isinstance(c, ast.Constant)] if arg is not None else []
-            binops = [b for b in ast.walk(arg) if isinstance(b, ast.BinOp) and isinstance(b.op, ast.Add)
-                      and isinstance(b.left, ast.Name) and b.left.id == ivar
-                      and isinstance(b.right, ast.Constant) and b.right.value == 1] if arg is not None else []
-            binops += [b for b in ast.walk(arg) if isinstance(b, ast.BinOp) and isinstance(b.op, ast.Add)
-                       and isinstance(b.right, ast.Name) and b.right.id == ivar
-                       and isinstance(b.left, ast.Constant) and b.left.value == 1] if arg is not None else []
-            if not binops:
-                problems.append((st, "suffix must be the 1-based position (%s + 1) among the matching items" % ivar))
+            if start is None or offs is None or start + offs != 1:
+                problems.append((st, "suffix must be the 1-based position among the matching items (enumerate start %s, offset %s)"
+                                 % (start, offs)))
             if not any(isinstance(c, str) and c.startswith(":") and "%" in c for c in consts) and ":{" not in txt:
                 problems.append((st, "suffix format is not ':<n>' (%s)" % txt))
             if "useful_mnemonic" not in txt:
